@@ -210,6 +210,43 @@ def genElemRound (i : Nat) : G (List String) := do
            "expect @res ok", "expect @count " ++ toString (nrec + 1)] ++ oracles ++
           ["expect @col " ++ toString nrec ++ " unk=0 " ++ " ".intercalate plainCols, "expect @fmt", "expect @agree"])
 
+open Goflow.Spec.Netflow Goflow.Gen.History in
+/-- two readers of the same bytes: a little-endian statement on an element that also feeds its regular column, and a
+    little-endian and a big-endian statement over the same bits of a layer (also through an alias key of the layer): every
+    reader sees the bytes of the datagram, whatever another statement did with them before -/
+def genAliasRound (i : Nat) : G (List String) := do
+  let version ← pick [9, 10]
+  let pbs : List PbField := [⟨"le_a", 2100, "varint", false⟩, ⟨"be_b", 2101, "varint", false⟩, ⟨"arr_c", 2102, "varint", true⟩]
+  let elem ← pick [(7, "SrcPort", 2), (11, "DstPort", 2), (10, "InIf", 4), (14, "OutIf", 2), (1, "Bytes", 8), (2, "Packets", 3)]
+  let (eid, col, w) := elem
+  let em : RawMap := { type := eid, destination := "le_a", endian := "little" }
+  let base : RawConfig := {}
+  let raw : RawConfig := { base with protobuf := pbs, ipfix := [em], v9 := [em], layers := [{ layer := "udp", offset := 0, length := 16, destination := "le_a", endian := "little" },
+               { layer := "udp", offset := 0, length := 16, destination := "be_b" },
+               { layer := "4", offset := 16, length := 16, destination := "arr_c", endian := "little" },
+               { layer := "udp", offset := 16, length := 16, destination := "arr_c", endian := "little" }] }
+  let cid := "al" ++ toString (i % 2)
+  let e : Exporter := ⟨[10, 0, 0, 88], 2055⟩
+  let v ← bytesOf w
+  let other ← bytesOf 4
+  let tpl : List SField := [⟨eid, w, none⟩, ⟨8, 4, none⟩]
+  let m0 : Msg := ⟨version, 0, 1, 2, 3, 4, [.template [(256, tpl)] 0, .data 256 tpl [[⟨v, false⟩, ⟨other, false⟩]] 0]⟩
+  -- Ethernet / IPv4 / UDP with chosen ports
+  let sp ← range 1024 65535
+  let dp ← pick [53, 443, 2000, 40000]
+  let frame : Bytes := (← bytesOf 12) ++ [0x08, 0x00, 0x45, 0, 0, 28] ++ (← bytesOf 2) ++ [0, 0, 64, 17, 0, 0] ++ (← bytesOf 8) ++
+    encBE 2 sp ++ encBE 2 dp ++ [0, 8, 0, 0]
+  let le (x : Nat) : Nat := (x % 256) * 256 + x / 256
+  let unkFrame := appendTag 2100 0 ++ appendVarint (le sp) ++ (appendTag 2101 0 ++ appendVarint sp) ++
+    (appendTag 2102 0 ++ appendVarint (le dp)) ++ (appendTag 2102 0 ++ appendVarint (le dp))
+  pure [cfgOp cid raw, "expect @res ok", "reset", "pipe nf netflow " ++ cid,
+        "pktf nf " ++ hexOf e.ip ++ " " ++ toString e.port ++ " 1700000000000000000 " ++ hexOf (encode { m0 with count := 2 }),
+        "expect @res ok", "expect @count 1",
+        "expect @col 0 unk=" ++ hexOf (appendTag 2100 0 ++ appendVarint (leNat v)) ++ " " ++ col ++ "=" ++ toString (beNat v) ++
+          " SrcAddr=" ++ hexOf other,
+        "call parsepacket " ++ cid ++ " " ++ hexOf frame, "expect @res ok",
+        "expect @col 0 unk=" ++ hexOf unkFrame ++ " SrcPort=" ++ toString sp ++ " DstPort=" ++ toString dp]
+
 /-! ### (c) -/
 
 open Goflow.Spec.Frame in
@@ -375,7 +412,7 @@ def gen (n : Nat) : G (List String) := do
   let mut out : List String := []
   for i in [0:n] do
     let r := i % 7
-    if r = 0 then out := out ++ (← genGetBytes i)
+    if r = 0 then out := out ++ (← genGetBytes i) ++ (← genAliasRound i)
     else if r = 1 ∨ r = 2 ∨ r = 3 then out := out ++ (← genElemRound i)
     else if r = 4 ∨ r = 5 then out := out ++ (← genLayerRound i)
     else out := out ++ (← genKeyRound i)
